@@ -251,6 +251,9 @@ def token_case(ck, monitor, fname, order, shape, dim, layout="contig", negative=
     else:
         if not torch.equal(xin, x0):
             good = ck.check(False, monitor, regime, entry, "input_modified_by_out_of_place", wit0)
+        # an out-of-place result is a new tensor: it shares no memory with the input (every length, also L = 1 where the fold is the input's value)
+        if plain_res.numel() and plain_res.untyped_storage().data_ptr() == xin.untyped_storage().data_ptr():
+            good = ck.check(False, monitor, regime, entry, "out_of_place_result_shares_memory_with_the_input", wit0)
     if base is not None and layout == "strided":
         idx = [slice(None)] * len(shape)
         idx[dim] = slice(1, None, 2)
@@ -423,6 +426,9 @@ def group_case(ck, G, dn, L, shape_kind, rng, variants):
                          lambda: dict(wit0, input_unchanged=bool(torch.equal(X.tensor(), raw0))))
             else:
                 ck.check(torch.equal(X.tensor(), raw0), monitor, regime, entry, "input_modified_by_out_of_place", wit0)
+                if isinstance(Y, pp.LieTensor) and Y.numel():
+                    ck.check(Y.tensor().untyped_storage().data_ptr() != X.tensor().untyped_storage().data_ptr(), monitor, regime, entry,
+                             "out_of_place_result_shares_memory_with_the_input", wit0)
             Yn = np.moveaxis(Y.tensor().detach().double().numpy(), dim, -2).reshape(-1, L, d)
             Mo = LR.group_matrix(G, Yn)
             P, S, T = ref[order]
@@ -506,6 +512,9 @@ def run_matrices(ck):
                         ck.check(torch.equal(A, Y), "matrix_fold", regime, fname, "inplace_input_not_overwritten", wit0)
                     else:
                         ck.check(torch.equal(A, A0), "matrix_fold", regime, fname, "input_modified_by_out_of_place", wit0)
+                        if isinstance(Y, torch.Tensor) and Y.numel():
+                            ck.check(Y.untyped_storage().data_ptr() != A.untyped_storage().data_ptr(), "matrix_fold", regime, fname,
+                                     "out_of_place_result_shares_memory_with_the_input", wit0)
                     Yn = Y.double().numpy().reshape(-1, L, n, n)
                     err = np.abs(Yn - P).max((-1, -2)).astype(np.float64)
                     ck.ratios("matrix_fold", regime, err, np.broadcast_to(C_MAT * u * idx * pn, err.shape).reshape(-1), fname, "wrong_fold_at_position",
